@@ -35,7 +35,8 @@ META = {
     "explanation": "Identifier values are followed to every operation applied to them (only equality / lookup / path "
                    "splitting are spelling-independent); name lookups over the hierarchical task set must be positional; "
                    "the grammar's rule table is cross-checked against the transformer's handlers with lark's own loader."
-                   " Also: the local-id identity census, dominance of a comment stripper (all comment kinds the grammar ignores) over the macro scans, and a regex-AST rule against line anchors in the built-in macro patterns.",
+                   " Also: the local-id identity census, dominance of a comment stripper (all comment kinds the grammar ignores) over the macro scans, and a regex-AST rule against line anchors in the built-in macro patterns."
+                   " Round 3: stripper short cuts cover every comment kind, parser objects per text, macro calls end at their matching brace (depth counter, never a pattern), local-id rule over the core modules, process-state rule.",
     "assumptions": ["lark's grammar loader (import of the grammar file only; no project text is parsed)"],
     "trusted_base": ["lark 1.3.1 grammar loader"],
 }
